@@ -258,6 +258,14 @@ func isNilGeometry(g orb.Geometry) bool {
 	return refgeom.Bits(g) != refgeom.Struct(g) && len(fmt.Sprint(g)) <= 2 && refgeom.Bits(orb.Clone(g)) != refgeom.Bits(g)
 }
 
+// h2 applies holder hi when it is one of the kind-agnostic ones
+func h2(hs []func(orb.Geometry) orb.Geometry, hi int, g orb.Geometry) orb.Geometry {
+	if hi >= len(hs) {
+		return nil
+	}
+	return hs[hi](g)
+}
+
 func kindOf(g orb.Geometry) string {
 	if g == nil {
 		return "nil"
@@ -438,6 +446,79 @@ func main() {
 			}
 			if z := f(neg); !orb.Equal(a, z) || !orb.Equal(z, a) {
 				c.Failf("equal", "form %d: orb.Equal(%v, the same with negative zeros) = %v / %v", fi, a, orb.Equal(a, z), orb.Equal(z, a))
+			}
+		}
+		c.NonTrivial()
+	})
+
+	// nil against empty: a nil slice, an empty one and an empty one with spare capacity have the same (zero) length,
+	// so they are equal - in both directions, directly through the typed method and through every container
+	type emptyKind struct {
+		name  string
+		forms []orb.Geometry
+		typed func(a, b orb.Geometry) bool
+	}
+	emptyKinds := []emptyKind{
+		{"MultiPoint", []orb.Geometry{orb.MultiPoint(nil), orb.MultiPoint{}, make(orb.MultiPoint, 0, 3)}, func(a, b orb.Geometry) bool { return a.(orb.MultiPoint).Equal(b.(orb.MultiPoint)) }},
+		{"LineString", []orb.Geometry{orb.LineString(nil), orb.LineString{}, make(orb.LineString, 0, 3)}, func(a, b orb.Geometry) bool { return a.(orb.LineString).Equal(b.(orb.LineString)) }},
+		{"Ring", []orb.Geometry{orb.Ring(nil), orb.Ring{}, make(orb.Ring, 0, 3)}, func(a, b orb.Geometry) bool { return a.(orb.Ring).Equal(b.(orb.Ring)) }},
+		{"MultiLineString", []orb.Geometry{orb.MultiLineString(nil), orb.MultiLineString{}, make(orb.MultiLineString, 0, 3)}, func(a, b orb.Geometry) bool { return a.(orb.MultiLineString).Equal(b.(orb.MultiLineString)) }},
+		{"Polygon", []orb.Geometry{orb.Polygon(nil), orb.Polygon{}, make(orb.Polygon, 0, 3)}, func(a, b orb.Geometry) bool { return a.(orb.Polygon).Equal(b.(orb.Polygon)) }},
+		{"MultiPolygon", []orb.Geometry{orb.MultiPolygon(nil), orb.MultiPolygon{}, make(orb.MultiPolygon, 0, 3)}, func(a, b orb.Geometry) bool { return a.(orb.MultiPolygon).Equal(b.(orb.MultiPolygon)) }},
+		{"Collection", []orb.Geometry{orb.Collection(nil), orb.Collection{}, make(orb.Collection, 0, 3)}, func(a, b orb.Geometry) bool { return a.(orb.Collection).Equal(b.(orb.Collection)) }},
+	}
+	// containers that hold the value at the same index on both sides (nil when the kind does not fit the container)
+	emptyHolders := []func(g orb.Geometry) orb.Geometry{
+		func(g orb.Geometry) orb.Geometry { return g },
+		func(g orb.Geometry) orb.Geometry { return orb.Collection{g} },
+		func(g orb.Geometry) orb.Geometry { return orb.Collection{orb.Point{1, 2}, orb.Collection{g}, orb.LineString{{3, 4}}} },
+		func(g orb.Geometry) orb.Geometry {
+			switch v := g.(type) {
+			case orb.Ring:
+				return orb.Polygon{{{0, 0}, {1, 0}, {1, 1}, {0, 0}}, v}
+			case orb.LineString:
+				return orb.MultiLineString{v, {{5, 5}, {6, 6}}}
+			case orb.Polygon:
+				return orb.MultiPolygon{{{{0, 0}, {1, 0}, {1, 1}, {0, 0}}}, v}
+			}
+			return nil
+		},
+		func(g orb.Geometry) orb.Geometry {
+			switch v := g.(type) {
+			case orb.Ring:
+				return orb.MultiPolygon{{v}, {{{0, 0}, {1, 0}, {1, 1}, {0, 0}}}}
+			case orb.Polygon:
+				return orb.Collection{orb.MultiPolygon{v}}
+			}
+			return nil
+		},
+	}
+	r.Explore("empty-forms", "7 slice kinds x ordered pairs of {nil, empty, empty with spare capacity} x 5 holders (bare, in a collection, in a nested collection, as a ring / line / polygon member at the same index): equal in both directions through orb.Equal and the typed method, never equal to the empty value of another kind, clones equal", mc.Opts{MaxDev: -1}, func(c *mc.Ctx) {
+		k := emptyKinds[c.Choose(len(emptyKinds))]
+		i, j := c.Choose(len(k.forms)), c.Choose(len(k.forms))
+		a, b := k.forms[i], k.forms[j]
+		if !k.typed(a, b) {
+			c.Failf("equal", "%s: form %d .Equal(form %d) is false (forms: nil, empty, empty with capacity)", k.name, i, j)
+		}
+		for hi, h := range emptyHolders {
+			ha, hb := h(a), h(b)
+			if ha == nil {
+				continue
+			}
+			if !orb.Equal(ha, hb) {
+				c.Failf("equal", "%s holder %d: orb.Equal(%#v, %#v) is false: the two differ only in nil / empty / spare capacity of one %s", k.name, hi, ha, hb, k.name)
+			}
+			// (the clone of a nil slice is the recorded finding of this property; values-* parts observe it)
+			if cl := orb.Clone(ha); i > 0 && (!orb.Equal(cl, hb) || !orb.Equal(hb, cl)) {
+				c.Failf("equal", "%s holder %d: the clone of %#v and %#v are not equal", k.name, hi, ha, hb)
+			}
+			for _, o := range emptyKinds {
+				if o.name == k.name {
+					continue
+				}
+				if ho := h2(emptyHolders[:3], hi, o.forms[j]); ho != nil && (orb.Equal(ha, ho) || orb.Equal(ho, ha)) {
+					c.Failf("equal", "%s holder %d: %#v equals %#v, which holds an empty %s instead", k.name, hi, ha, ho, o.name)
+				}
 			}
 		}
 		c.NonTrivial()
